@@ -27,6 +27,7 @@ import math
 import struct
 import sys
 import types
+import typing
 
 import numpy as np
 
@@ -82,6 +83,94 @@ class Color(enum.Enum):
 class Num(enum.IntEnum):
     ONE = 1
     TWO = 2
+
+
+class Word(str, enum.Enum):
+    """str-mixin enumeration: the members are str instances equal to plain strings."""
+    A = "a"
+    YES = "yes"
+    AB = "ab"
+
+
+if hasattr(enum, "StrEnum"):
+    class Level(enum.StrEnum):
+        NO = "no"
+        TWELVE = "12"
+else:                                                        # Python < 3.11
+    class Level(str, enum.Enum):
+        NO = "no"
+        TWELVE = "12"
+
+
+class Token(object):
+    """An object with its own __eq__: equal to its spelling in any letter case."""
+
+    def __init__(self, text):
+        self.text = text
+
+    def __eq__(self, other):
+        if isinstance(other, Token):
+            other = other.text
+        if isinstance(other, str):
+            return self.text.lower() == other.lower()
+        return NotImplemented
+
+    def __hash__(self):
+        return hash(self.text.lower())
+
+    def __repr__(self):
+        return "Token(%r)" % (self.text,)
+
+
+# ---- classes whose isinstance() verdict depends on the individual object, not
+# ---- on type(value) alone
+@typing.runtime_checkable
+class Labelled(typing.Protocol):
+    """Runtime-checkable protocol with a data member."""
+    vf_label: str
+
+
+class Thing(object):
+    """Only some instances carry the protocol's data member."""
+
+    def __init__(self, label=None):
+        if label is not None:
+            self.vf_label = label
+
+    def __repr__(self):
+        return "Thing(%s)" % ", ".join("%s=%r" % kv for kv in sorted(self.__dict__.items()))
+
+
+class OpenMeta(type):
+    def __instancecheck__(cls, instance):
+        return getattr(instance, "is_open", False) is True
+
+
+class Open(metaclass=OpenMeta):
+    """isinstance(x, Open) is decided per object by the metaclass."""
+
+
+class Door(object):
+    def __init__(self, is_open):
+        self.is_open = is_open
+
+    def __repr__(self):
+        return "Door(%r)" % (self.is_open,)
+
+
+class Masq(object):
+    """Reports a class of its choice through __class__ (what mock objects built
+    with a spec do); isinstance() honours it, type() does not."""
+
+    def __init__(self, cls):
+        object.__setattr__(self, "_masq", cls)
+
+    @property
+    def __class__(self):
+        return object.__getattribute__(self, "_masq")
+
+    def __repr__(self):
+        return "Masq(%s)" % object.__getattribute__(self, "_masq").__name__
 
 
 def _payload(v):
@@ -456,6 +545,10 @@ def _build():
     add("L(1,2)", "list.subclass", L([1, 2]))
     add("D()", "dict.subclass", D())
     add("Color.RED", "enum", Color.RED)
+    # str-mixin enumeration members / enum.StrEnum members (equal to plain strings)
+    add("Word.A", "str.subclass", Word.A)
+    add("Word.YES", "str.subclass", Word.YES)
+    add("Level.NO", "str.subclass", Level.NO)
 
     # ---- numpy scalars ----------------------------------------------------
     for name, v in (("int8(1)", np.int8(1)), ("int8(-128)", np.int8(-128)), ("int8(127)", np.int8(127)),
@@ -557,6 +650,8 @@ def _build():
     add("HashRaises", "hash.raises", HashRaises())
     add("HashEq(yes)", "eq.proxy", HashEq("yes"))
     add("HashEq(1)", "eq.proxy", HashEq(1))
+    add("Token(Yes)", "eq.proxy", Token("Yes"))
+    add("Token(maybe)", "eq.proxy", Token("maybe"))
 
     # ---- containers -------------------------------------------------------
     for name, v in (("()", ()), ("(1,)", (1,)), ("(1,2)", (1, 2)), ("(1,'a')", (1, "a")),
@@ -620,6 +715,19 @@ def _build():
     add("SrcSub()", "adaptable", SrcSub())
     add("Src2()", "adaptable.alt", Src2())
     add("XAdapter()", "hastraits", XAdapter(Src()))
+
+    # ---- objects whose isinstance() verdict is individual ---------------------
+    add("Thing(a)", "duck.member-present", Thing("a"))
+    add("Thing(b)", "duck.member-present", Thing("b"))
+    add("Thing()", "duck.member-absent", Thing())
+    add("Thing()#2", "duck.member-absent", Thing())
+    add("Door(open)", "duck.flag-on", Door(True))
+    add("Door(open)#2", "duck.flag-on", Door(True))
+    add("Door(shut)", "duck.flag-off", Door(False))
+    add("Masq(X)", "class-masquerade", Masq(X))
+    add("Masq(X)#2", "class-masquerade", Masq(X))
+    add("Masq(int)", "class-masquerade", Masq(int))
+    add("Masq(Holder)", "class-masquerade", Masq(Holder))
 
     # ---- singletons -------------------------------------------------------
     add("object()", "object", object())
